@@ -28,6 +28,19 @@ def model_sigs(sigs):
     return ",".join(out) or "-"
 
 
+def sort_rb(lines):
+    """reconstructed blocks come out of a HashMap: compare them as a sorted run"""
+    out, run = [], []
+    for l in lines:
+        if l.startswith("rb "):
+            run.append(l)
+        else:
+            out += sorted(run)
+            run = []
+            out.append(l)
+    return out + sorted(run)
+
+
 def kvs(line):
     return dict(t.split("=", 1) for t in line.split()[1:] if "=" in t)
 
@@ -158,8 +171,15 @@ class C09(CaseCheck):
         return split_cases(run_harness("astria-conductor", "celestia::verif::drive", text, "c09", timeout=3000))
 
     def model_all(self, cases, impl):
-        text = "\n".join("\n".join(self.to_model(c, il)) for c, il in zip(cases, impl)) + "\n"
-        return split_cases(run_model("c09", text))
+        self.canon_cache = {}
+        parts = []
+        for c, il in zip(cases, impl):
+            parts.append("\n".join(self.to_model(c, il)))
+            self.canon_cache[id(il)] = self.canon_ctx(il)      # uses the per-case context set by to_model
+        return [sort_rb(m) for m in split_cases(run_model("c09", "\n".join(parts) + "\n"))]
+
+    def canon(self, lines):
+        return self.canon_cache.get(id(lines)) or self.canon_ctx(lines)
 
     # translate one case of the harness script into the model driver's input
     def to_model(self, case, il):
@@ -200,7 +220,7 @@ class C09(CaseCheck):
                     o = kvs(obs[0])
                     honest[int(a["k"])] = o
             elif t[0] == "pipeline":
-                out.append(self.pipe_line(a, blocks, honest))
+                out.append(self.pipe_line(a, blocks, honest, obs))
         self.blocks, self.honest = blocks, honest
         return out
 
@@ -209,7 +229,7 @@ class C09(CaseCheck):
             self.codes = {}
         return self.codes.setdefault(s, len(self.codes) + 1)
 
-    def pipe_line(self, a, blocks, honest):
+    def pipe_line(self, a, blocks, honest, obs=()):
         target = a["rollup"]
         metas, rollups = [[]], [[]]
         uid = 0
@@ -244,6 +264,13 @@ class C09(CaseCheck):
                 txs = self.code("txs:%d:%s" % (k, r))
                 if tam:
                     audit = 0
+                    if tam.startswith(("pidx=", "psize=", "ppath")):
+                        # whether an edited (index, size, path) still audits is C08's business; take the verdict the
+                        # implementation reached (the data it attaches is still checked against the honest data by the
+                        # monitor).  If the honest entry is present too, the edited one is irrelevant.
+                        honest_too = ("d%d:%s" % (k, r)) in a["items"].split(",")
+                        attached = any(o.startswith("rb ") and kvs(o).get("hash") == hx and kvs(o).get("ntx") != "0" for o in obs)
+                        audit = 1 if (attached and not honest_too) else 0
                     if tam.startswith("blk="):
                         hx = blocks[int(tam[4:])]["hash"]
                     if tam.startswith("pidx="):
@@ -255,7 +282,7 @@ class C09(CaseCheck):
                         wf = 0 if v == 0 else wf
                     if tam == "ppath1":
                         wf = 0
-                    txs = self.code("txs:%d:%s:%s" % (k, r, tam))
+                    txs = self.code("txs:%d:%s" % (k, r)) if tam.startswith(("pidx=", "psize=", "ppath")) else self.code("txs:%d:%s:%s" % (k, r, tam))
                 uid += 1
                 e = "%d:%d:%d:%d:%d" % (self.code("hash:" + hx), uid, wf, audit, txs)
                 if newblob:
@@ -264,7 +291,7 @@ class C09(CaseCheck):
         return "pipe nf=%s metas=%s rollups=%s" % (a["firm"], "|".join(",".join(b) for b in metas if b) or "-",
                                                     "|".join(",".join(b) for b in rollups if b) or "-")
 
-    def canon(self, lines):
+    def canon_ctx(self, lines):
         """implementation lines -> the model's vocabulary"""
         out = []
         rbs = []
